@@ -76,8 +76,8 @@ theorem findAt_zero_of_prefix {pat s : Bytes} (h : pat.isPrefixOf s = true) : fi
 
 /-! ### split / join -/
 
-theorem splitB_ne_nil (pat : Bytes) (fuel : Nat) (rest : Bytes) : splitB pat (fuel + 1) rest ≠ [] := by
-  simp only [splitB]
+theorem splitNE_ne_nil (pat : Bytes) (fuel : Nat) (rest : Bytes) : splitNE pat (fuel + 1) rest ≠ [] := by
+  simp only [splitNE]
   split <;> simp
 
 theorem joinWith_cons (sep x : Bytes) {xs : List Bytes} (h : xs ≠ []) :
@@ -87,11 +87,11 @@ theorem joinWith_cons (sep x : Bytes) {xs : List Bytes} (h : xs ≠ []) :
   | cons y r => rfl
 
 /-- **split then join**: for a non-empty pattern the pieces, re-joined with the pattern, are the input -/
-theorem splitB_join {pat : Bytes} (hp : pat ≠ []) : ∀ (fuel : Nat) (rest : Bytes), rest.length < fuel →
-    joinWith pat (splitB pat fuel rest) = rest
+theorem splitNE_join {pat : Bytes} (hp : pat ≠ []) : ∀ (fuel : Nat) (rest : Bytes), rest.length < fuel →
+    joinWith pat (splitNE pat fuel rest) = rest
   | 0, _, h => by omega
   | fuel + 1, rest, h => by
-    simp only [splitB]
+    simp only [splitNE]
     cases hf : findAt pat rest with
     | none => rfl
     | some e =>
@@ -100,16 +100,16 @@ theorem splitB_join {pat : Bytes} (hp : pat ≠ []) : ∀ (fuel : Nat) (rest : B
       have hpl : 0 < pat.length := List.length_pos_iff.mpr hp
       have hfuel : 0 < fuel := by omega
       obtain ⟨f', rfl⟩ : ∃ f', fuel = f' + 1 := ⟨fuel - 1, by omega⟩
-      rw [joinWith_cons _ _ (splitB_ne_nil _ _ _)]
+      rw [joinWith_cons _ _ (splitNE_ne_nil _ _ _)]
       have hlen : (rest.drop (e + pat.length)).length < f' + 1 := by
         simp only [List.length_drop]; omega
-      rw [splitB_join hp (f' + 1) _ hlen]
+      rw [splitNE_join hp (f' + 1) _ hlen]
       exact (findAt_some hf).symm
 
 /-- no piece of a split contains the pattern at its start … and every piece is a sub-string; the number
 of pieces is one more than the number of (non-overlapping, leftmost) occurrences -/
-theorem splitB_length_pos (pat : Bytes) (fuel : Nat) (rest : Bytes) : 0 < (splitB pat (fuel + 1) rest).length :=
-  List.length_pos_iff.mpr (splitB_ne_nil pat fuel rest)
+theorem splitNE_length_pos (pat : Bytes) (fuel : Nat) (rest : Bytes) : 0 < (splitNE pat (fuel + 1) rest).length :=
+  List.length_pos_iff.mpr (splitNE_ne_nil pat fuel rest)
 
 /-! ### lines -/
 
